@@ -80,7 +80,16 @@ type ntlmContext struct {
 	h *NTLMAuth
 }
 
-func (c *ntlmContext) Authenticate(authorisationEncoded string, r *auth.NtlmResponse) (error) {
+func (c *ntlmContext) Authenticate(authorisationEncoded string, r *auth.NtlmResponse) (err error) {
+	// the ntlm library panics on some malformed messages, treat that as a parse error
+	defer func() {
+		if p := recover(); p != nil {
+			r.Authenticated = false
+			r.Username = ""
+			err = errors.New(fmt.Sprintf("Failed to parse NTLM Authorisation header: %v", p))
+		}
+	}()
+
         authorisation, err := base64.StdEncoding.DecodeString(authorisationEncoded)
         if err != nil {
 		return errors.New(fmt.Sprintf("Failed to decode NTLM Authorisation header: %s", err))
